@@ -1,6 +1,7 @@
 """C07 -- Pade matrix exponential: the encodable clauses (tables/assembly, no spurious exception, diagonal shortcut, UTransform glue).
 The accuracy-for-every-matrix clause is outside the technique (see level_note)."""
 import sys, time, os, json, math
+import re as re_
 from fractions import Fraction
 from multiprocessing import Pool as MPool
 import numpy as np
@@ -14,7 +15,7 @@ PID = 'C07'
 CPP = 'c07.cpp'
 LIBS = ('SUNalg.cpp', 'const.cpp')
 TOL = Fraction(1, 10 ** 13)
-FUNCS = ['math_detail::pade3/5/7/9/13', 'math_detail::matrix_exponential (diagonal shortcut, dispatch to the estimator)', 'math_detail::one_normest_core (argument validation)', 'math_detail::one_normest_matrix_power / ell / one_normest_product (call sites)',
+FUNCS = ['math_detail::pade3/5/7/9/13', 'math_detail::matrix_exponential (diagonal shortcut, dispatch to the estimator, order selection, scaling, repeated squaring)', 'math_detail::solve_P_Q', 'math_detail::one_normest_core (argument validation)', 'math_detail::one_normest_matrix_power / ell / one_normest_product (call sites)',
          'SU_vector::UTransform(const SU_vector&, gsl_complex)', 'gsl_matrix_complex_change_basis_UCMU', 'gsl_matrix_complex_holder (thread-local scratch)']
 NORMEST = '_ZN6squids11math_detail16one_normest_coreEPK18gsl_matrix_complexjj'
 EXPM = '_ZN6squids11math_detail18matrix_exponentialEP18gsl_matrix_complexPKS1_'
@@ -175,6 +176,77 @@ def work(item):
                     dec.candidate('expm:n=%d:diagvalue' % n, 'diagonal shortcut does not return diag(exp(a_ii))', kind='expm', n=n)
             else:
                 out['broken'].append('h_expm n=%d ret %r' % (n, p.ret))
+    elif kind == 'glue':
+        # order selection + scaling + repeated squaring: A bidiagonal nilpotent (A^7 = 0) with symbolic complex entries, for which every
+        # [m/m] approximant (2m >= 6) and every scaling is EXACT: q_m(A) exp(A) = p_m(A).  The norm estimators are stubs returning scripted values
+        # (any value is a legitimate estimate for the purpose of this identity), so every order m and scaling exponent s is driven.
+        name, norms, ells = item[1], item[2], item[3]
+        n = 7
+        nn = n * n
+        zr, zi = sym_vec('x', n - 1), sym_vec('y', n - 1)
+        are, aim = [Fraction(0)] * nn, [Fraction(0)] * nn
+        for k in range(n - 1):
+            are[k * n + k + 1] = zr[k]
+            aim[k * n + k + 1] = zi[k]
+        ex = h.executor()
+        ex.merge = True
+        calls = {'norm': 0, 'ell': 0, 'order': None}
+
+        def normstub(ex_, st, args, ins):
+            k = sum(1 for e in st.log if e[0] == 'norm')
+            st.log.append(('norm', k))
+            return Fraction(norms[min(k, len(norms) - 1)])
+
+        def ellstub(ex_, st, args, ins):
+            k = sum(1 for e in st.log if e[0] == 'ell')
+            st.log.append(('ell', k, args[1]))
+            return ells[k] if k < len(ells) else 0
+        for f in h.mod.functions:
+            if f.startswith('_ZN6squids11math_detail') and ('exact_1_norm' in f or 'one_normest_matrix_power' in f or 'one_normest_product' in f):
+                ex.summaries[f] = normstub
+            if f.startswith('_ZN6squids11math_detail3ell'):
+                ex.summaries[f] = ellstub
+        ex.call_log_names = set(f for f in h.mod.functions if f.startswith('_ZN6squids11math_detail') and 'pade' in f)
+        ps = h.run('h_expm', [I(n), Buf('are', are), Buf('aim', aim), Buf('ere', n=nn), Buf('eim', n=nn)], ex=ex)
+        exstats.append(ex.stats)
+        z = [(ctx.poly(zr[k]), ctx.poly(zi[k])) for k in range(n - 1)]
+        nond = 0
+        for p in ps:
+            if p.status != 'ok' or p.ret != 0:
+                dec.candidate('glue:%s:error' % name, 'matrix_exponential of a nilpotent 7x7 matrix ends in %s %r %s [%s]' % (p.status, p.ret, (p.info or {}).get('msg', ''), name), kind='glue', script=name)
+                continue
+            orders = [e[0] for e in p.state.log if isinstance(e[0], str) and 'pade' in e[0]]
+            if not orders:
+                continue          # the diagonal path (all entries zero): covered by the dispatch obligation
+            nond += 1
+            out['witnesses']['reachability'] += 1
+            m = int(re_.search(r'pade(\d+)E', orders[-1]).group(1))
+            ere, eim = p.out('ere'), p.out('eim')
+            polys = []
+            for i in range(n):
+                for j in range(n):
+                    if j < i:
+                        want = (Poly(), Poly())
+                    else:
+                        want = (Poly.const(1), Poly())
+                        for k in range(i, j):
+                            want = cmul(want, z[k])
+                        f_ = Fraction(1, math.factorial(j - i))
+                        want = (want[0].scale(f_), want[1].scale(f_))
+                    if ere[i * n + j] is None or eim[i * n + j] is None:
+                        dec.candidate('glue:%s:unwritten' % name, 'matrix_exponential leaves an entry of the result unwritten [%s]' % name, kind='glue', script=name)
+                        polys = None
+                        break
+                    polys.append(ctx.poly(ere[i * n + j]) - want[0])
+                    polys.append(ctx.poly(eim[i * n + j]) - want[1])
+                if polys is None:
+                    break
+            if polys:
+                nell = sum(1 for e in p.state.log if e[0] == 'ell')
+                dec.decide('matrix_exponential (order %d selected, %d norm estimates, %d ell calls; script "%s"): result = exp(A) exactly for A bidiagonal nilpotent 7x7, all 12 real parameters symbolic' % (m, sum(1 for e in p.state.log if e[0] == 'norm'), nell, name),
+                           polys, 'glue:%s' % name, dict(kind='glue', script=name, order=m))
+        if nond == 0:
+            out['broken'].append('glue script %s: no non-diagonal path' % name)
     elif kind == 'utransform':
         d, d0 = item[1], item[2]
         n = d * d
@@ -268,6 +340,40 @@ def replay(chk, h, c):
                 E = (np.array(o['ere']) + 1j * np.array(o['eim'])).reshape(n, n)
                 worst = max(worst, np.abs(E - expm(X)).max())
         return worst > 1e-12, worst
+    if kind == 'glue':
+        n = 7
+        for mag in (1e-3, 0.02, 0.1, 0.3, 0.7, 1.0, 1.6, 2.5, 4.0, 7.0, 12.0, 20.0, 35.0, 60.0):
+            for trial in range(2):
+                zz = (rng.uniform(0.5, 1, n - 1) * np.exp(2j * np.pi * rng.uniform(0, 1, n - 1))) * mag
+                X = np.zeros((n, n), complex)
+                for k in range(n - 1):
+                    X[k, k + 1] = zz[k]
+                ret, o = h.native('h_expm', [I(n), Buf('are', X.real.flatten()), Buf('aim', X.imag.flatten()), Buf('ere', [np.nan] * (n * n)), Buf('eim', [np.nan] * (n * n))])
+                if ret != 0:
+                    return True, float('inf')
+                E = (np.array(o['ere']) + 1j * np.array(o['eim'])).reshape(n, n)
+                W = np.zeros((n, n), complex)
+                for i in range(n):
+                    for j in range(i, n):
+                        W[i, j] = np.prod(zz[i:j]) / math.factorial(j - i)
+                if np.isnan(E).any():
+                    return True, float('inf')
+                worst = max(worst, (np.abs(E - W) / np.maximum(1.0, np.abs(W))).max())
+        # for a nilpotent matrix the real estimators never ask for scaling (A^8 = 0): the scaled branches are confirmed on anti-Hermitian
+        # matrices (unitary exponential, perfectly conditioned) whose norm makes the real code take s = 1..4
+        for nrm in (0.5, 1.5, 3.0, 6.0, 12.0, 24.0, 48.0):
+            for n_ in (2, 3, 4, 6):
+                X = rng.uniform(-1, 1, (n_, n_)) + 1j * rng.uniform(-1, 1, (n_, n_))
+                X = X - X.conj().T
+                X *= nrm / np.abs(X).sum(axis=0).max()
+                ret, o = h.native('h_expm', [I(n_), Buf('are', X.real.flatten()), Buf('aim', X.imag.flatten()), Buf('ere', [np.nan] * (n_ * n_)), Buf('eim', [np.nan] * (n_ * n_))])
+                if ret != 0:
+                    return True, float('inf')
+                E = (np.array(o['ere']) + 1j * np.array(o['eim'])).reshape(n_, n_)
+                if np.isnan(E).any():
+                    return True, float('inf')
+                worst = max(worst, np.abs(E - expm(X)).max())
+        return worst > 1e-9, worst
     if kind in ('expm-throws', 'expm', 'expm-shortcut'):
         n = c['n']
         for trial in range(4):
@@ -308,15 +414,24 @@ def main(tier):
     items = [('pade', m, tier) for m in (3, 5, 7, 9, 13)] + [('guard', n, tier) for n in (2, 3, 4, 5, 6)]
     for d in ((2, 3, 4) if tier == 'quick' else (2, 3, 4, 5, 6)):
         items.append(('utransform', d, 0, tier))
+    # scripted estimates: a list of norm values (consumed in call order, the last one repeats) and of ell() values (call order, then 0).
+    # ell(B,13) is always scripted as 0: with est <= ||B||_1^27, alpha <= ||B||_1^26 / (C(54,27) 55!) < 2^-53 whenever ||B||_1 < 300, and the property's domain ends at ~50
+    scripts = [('all estimates tiny -> order 3', [1e-20], []), ('order 3 vetoed by ell -> order 5', [1e-20], [1, 0]), ('order 5 by the norms', [1e-6, 1e-4, 1e-4], []),
+               ('order 7', [0.5], []), ('order 7 vetoed by ell -> order 9', [0.5], [1, 0]), ('order 9 by the norms', [1.0], []), ('order 13, s=0', [1e3], []), ('order 13, s=1', [1e7], []),
+               ('order 13, s=2', [1e9], []), ('orders 7 and 9 vetoed by ell -> order 13, s=0', [0.05], [1, 1, 0])]
+    if tier == 'thorough':
+        scripts += [('order 13, s=3', [1e12], []), ('order 13, s=4', [1e14], []), ('orders 3,5,7,9 all vetoed by ell -> order 13, s=0', [1e-20], [1, 1, 1, 1, 0]), ('order 13, s=5', [1e17], [])]
+    for nm, norms, ells in scripts:
+        items.append(('glue', nm, norms, ells, tier))
     items.append(('utransform', 3, 2, tier))
     items.append(('utransform', 2, 4, tier))
     chk.cov['bounds'] = {'Pade tables': 'orders 3,5,7,9,13 on a symbolic complex number (1x1 matrix), even powers formed by zgemm as in the library', 'estimator guard': 'n=2..6, t and itmax symbolic 32-bit, matrix symbolic',
-                         'dispatch': 'n=2..6, all 2n^2 real entries symbolic (diamonds merged): shortcut iff diagonal; estimator reached iff not', 'UTransform': 'd in %s, A, V, scale symbolic, exponential summarised by an arbitrary matrix; two histories with a previous call in another dimension' % (
+                         'order selection/scaling/squaring': 'A = bidiagonal nilpotent 7x7 with 12 symbolic real parameters; the norm estimators and ell are stubs returning scripted values that drive every order 3,5,7,9,13 and scaling exponents s=0..3 (thorough: ..4)', 'dispatch': 'n=2..6, all 2n^2 real entries symbolic (diamonds merged): shortcut iff diagonal; estimator reached iff not', 'UTransform': 'd in %s, A, V, scale symbolic, exponential summarised by an arbitrary matrix; two histories with a previous call in another dimension' % (
                              '2..4' if tier == 'quick' else '2..6')}
     chk.cov['domains'] = ['R (exact reals); exp/sin/cos atoms for the diagonal shortcut', 'bit-vectors for (t, itmax)']
-    chk.cov['stubs'] = ['GSL containers, zgemm: shim', 'one_normest_core summarised (arguments logged) when deciding the dispatch', 'matrix_exponential summarised (argument logged, result = fresh symbols) when deciding UTransform']
-    chk.assumptions = ['OUTSIDE THE TECHNIQUE: "equals exp(A) to a small multiple of machine precision times conditioning for every matrix, norm band and call history" -- needs floating-point backward error analysis through LU with pivoting (compiled GSL), the randomised 1-norm estimator and pow/log; not encodable. Likewise the theta_m thresholds and the scaling-and-squaring stage (s, ell) are not decided',
-                       'the [m/m] Pade approximant of exp is the one with numerator coefficients (2m-k)!/(k!(m-k)!) (up to the common factor): trusted textbook fact', 'the native replay compares with scipy.linalg.expm on well-conditioned (anti-Hermitian) matrices in the norm band of the order concerned']
+    chk.cov['stubs'] = ['GSL containers, zgemm, complex LU with partial pivoting: shim', 'exact_1_norm / one_normest_matrix_power / one_normest_product / ell: scripted return values when deciding the selection/scaling/squaring glue (the identity checked holds for every estimate)', 'one_normest_core summarised (arguments logged) when deciding the dispatch', 'matrix_exponential summarised (argument logged, result = fresh symbols) when deciding UTransform']
+    chk.assumptions = ['OUTSIDE THE TECHNIQUE: "equals exp(A) to a small multiple of machine precision times conditioning for every matrix, norm band and call history" -- needs floating-point backward error analysis through LU with pivoting (compiled GSL), the randomised 1-norm estimator and pow/log; not encodable. Likewise the theta_m thresholds and the estimator values are not decided; the scaling-and-squaring GLUE (which matrices are scaled by which power, number of squarings, parity copy) is decided exactly on nilpotent input for scripted estimates',
+                       'the [m/m] Pade approximant of exp is the one with numerator coefficients (2m-k)!/(k!(m-k)!) (up to the common factor): trusted textbook fact', 'ell(B,13) = 0 on the property\'s domain (1-norm <= ~50): alpha <= ||B||_1^26/(C(54,27) 55!) < 2^-53 for ||B||_1 < 300; the branch s += ell(B,13) with a non-zero value is outside the property and is NOT exercised (see DESIGN.md: the code is wrong there, observed natively at norm 800)', 'the native replay compares with scipy.linalg.expm on well-conditioned (anti-Hermitian) matrices in the norm band of the order concerned']
     h = harness()
     rng = np.random.RandomState(chk.seed + 1)
     cases = []
